@@ -67,7 +67,9 @@ func runC10(w *World, pi interface{}) {
 		return
 	}
 	w.Count("premise-group")
-	sig := func(what string) string { return fmt.Sprintf("%s transport=%s full=%v", what, p.Conf.Transport, p.Conf.Full) }
+	sig := func(what string) string {
+		return fmt.Sprintf("%s transport=%s full=%v", what, p.Conf.Transport, p.Conf.Full)
+	}
 	for _, e := range h.Ev {
 		switch e.Kind {
 		case "s-frame":
